@@ -1058,14 +1058,18 @@ def run(tier, seed):
         stats.counters['macro_depth%d' % d] for d in (1, 2, 3, 4))
     b = bounds(tier)
     meta = dict(
-        rule='(i) all expressions of depth <= 2 over 19 operators x 10 operands (both shapes), full/minimal/spaced parenthesisation, via #EVAL and #IF; '
-             '(ii) macro ASTs to depth 3{} in every legal style (complete style product to depth 2, <= {} slot deviations + 36 uniform styles beyond), '
-             'depth <= 2 under all 9 base/case configurations; (iii) BFS over 14 state-changing macros to depth {}: states = distinct canonical reference '
-             'states (variables, poked cells, snapshot stack, defined macros), every transition target replayed on fresh AsmWriter+HtmlWriter and probed with '
-             '~32 macros + snapshot-stack drain; (iv) histories to depth {} through skool2asm/skool2html with every pure probe in 8 comment positions + a ref page. '
-             'evaluations = macro texts (or tool comment positions) compared with the reference; transitions = real expansions of state-changing macros; '
-             'non-trivial = macro nesting depth >= 2 or history length >= 2'.format(
-                 ' (+ depth 4 over 5+5 contexts)' if tier == 'thorough' else '', 1 if tier == 'quick' else 2, b['hist'], b['tool']),
+        rule='(i) all expressions of depth <= 2 over 19 operators x 10 operands (both tree shapes), via #EVAL(..) (exact value; fully and minimally parenthesised{}) '
+             'and #IF(..)(T,F) (truth value); (ii) macro ASTs to nesting depth 3{} built from 125 leaf macros, 15 integer contexts, 13 string contexts, 10 #(..) contexts, '
+             '#FOR/#FOREACH bodies over the loop variable and 18 self-contained state-changing composites; styles: complete product over all slots to depth 2 '
+             '(cap {} per AST), beyond that the simplest legal global style, every deviation from it in one slot{}, and the 84 global styles (6 integer styles x 14 '
+             'per-nesting-level string styles); every AST of depth <= 2 also under the other 8 base/case configurations; (iii) BFS over 14 state-changing macros to '
+             'depth {}: states = distinct canonical reference states (variables, poked cells, snapshot stack, defined macros); every transition target (merged or not) '
+             'replayed on fresh AsmWriter+HtmlWriter and probed with 32 macros + snapshot-stack drain{}; (iv) every distinct state to depth {} through skool2asm/skool2html '
+             'with every pure probe in 8 comment positions + a ref-file page. evaluations = macro texts (tool: comment positions) compared with the reference; '
+             'transitions = real expansions of state-changing macros; non-trivial = macro nesting depth >= 2 or history length >= 2'.format(
+                 '' if tier == 'quick' else ', with and without spaces', '' if tier == 'quick' else ' (+ depth 4 over 3+3 contexts in the base style and 28 global styles)',
+                 1500 if tier == 'quick' else 8000, '' if tier == 'quick' else ' and in every pair of string-group slots', b['hist'],
+                 ' in one style family (seed-rotated)' if tier == 'quick' else ' in 3 style families', b['tool']),
         exhaustive=True,
         bound='expressions depth 2; macro nesting depth {}; histories depth {}; tool histories depth {}; base/case configuration {} (seed-rotated) + all 9 for depth <= 2'.format(
             4 if tier == 'thorough' else 3, b['hist'], b['tool'], CONFIGS[seed % len(CONFIGS)]),
@@ -1083,6 +1087,10 @@ def run(tier, seed):
             '#FORMAT case conversion of nested macro source; #POPS on an empty stack; replacement fields of undefined variables; POKEname for a name pushed more than once',
             '#PC at the writer seam is set by the harness (writer.pc); its per-position semantics are checked at tool level',
             'module-level caches are emptied only at simulated process start (beginning of a case), never within a case',
+            'an expansion that uses more than 1 CPU-second (tool run: 20) is reported as non-terminating (the longest legitimate one takes ~20 ms)',
+            'after 150 violations in one section of one shard that section stops enumerating (reported under caps_hit); the verdict is already decided',
+            'alternative delimiters/separators must not occur in the HTML-escaped form of the parameters either (extends the documented "must not be &, < or >": '
+            'e.g. ";" collides with &lt; in HTML mode); braces are not used to delimit a #LET dictionary value (the value undergoes replacement-field substitution)',
             'HTML expansions are compared after html.unescape; the documented raw forms of #CHR/#SPACE (&#N; / &#160;) are compared exactly when the text has no other HTML-special character',
         ],
         required_guards=['expr_exact', 'expr_truth_only', 'expr_undefined', 'expr_bare_precedence', 'expr_negative', 'macro_depth1', 'macro_depth2', 'macro_depth3',
